@@ -628,13 +628,14 @@ impl<'a> Parser<'a> {
                     if o < slot as u128 {
                         return err(ErrClass::BadOffset, off + pos, off + pos + len.size);
                     }
+                    // a misaligned offset can never become valid, however many bytes follow
+                    if o % d.align() as u128 != 0 {
+                        return err(ErrClass::BadAlign, off + pos, off + pos + len.size);
+                    }
                     if o > (ku - pos) as u128 {
                         return err(ErrClass::Short, off + pos, off + pos + len.size);
                     }
                     let o = o as usize;
-                    if o % d.align() != 0 {
-                        return err(ErrClass::BadAlign, off + pos, off + pos + len.size);
-                    }
                     self.rec(path, off + pos, len.size, RecKind::FlexOff);
                     path.push(vals.len() as u32);
                     let r = self.parse(item, off + pos + slot, o - slot, path);
